@@ -19,16 +19,18 @@ RULE = (
     "'.' or '?' x both selections: usual intron and site positions, no five-/three-prime label. Part 'introns' (shards = blocks of exon "
     "sets): first transcript = every set of 1..3 exons with distinct starts over positions 1..6 (quick) / 1..8 (thorough; also 4 exons "
     "over 1..6), 931 / 6742 sets; second transcript = 3 representative sets; x strand x exon line order x always_return_list; a third "
-    "transcript has only a CDS. create_introns (both selections, attributes, columns) and create_splice_sites (positions, labels, "
-    "distinct prefixed ids; numeric_sort must reach the sites' attributes too) are compared with the reference; database unchanged; "
-    "after update() adds a gene both calls are re-checked. Non-trivial = some consecutive pair touches/overlaps/changes seqid/differs "
-    "in strand while another has a gap (lists); the first transcript has >= 2 exons (introns); every empty and unstranded execution."
+    "transcript has only a CDS; the first has a miRNA child with an exon of its own (not an exon of the transcript). create_introns "
+    "(both selections, attributes, columns) and create_splice_sites (positions, labels, distinct prefixed ids; numeric_sort must reach "
+    "the sites' attributes too) are compared with the reference; database unchanged; after update() adds a gene both calls are "
+    "re-checked. Non-trivial = some consecutive pair touches/overlaps/changes seqid/differs in strand while another has a gap (lists); "
+    "the first transcript has >= 2 exons (introns); every empty and unstranded execution."
 )
 ASSUMPTIONS = [
     "exons of one transcript have distinct starts (order among equal starts is unspecified)",
     "score/frame/source/id of a derived interfeature are not demanded",
     "introns part: the first transcript ranges over every exon set, the second over three representative sets (first, middle, last)",
     "a transcript without strand ('.' or '?') gives no ground for a five-/three-prime label: only such labels are objected to there",
+    "an exon whose Parent is a child of the transcript is not an exon of that transcript for create_introns / create_splice_sites",
 ]
 
 SETTINGS = [
